@@ -135,4 +135,6 @@ def run_pipeline(sources: dict, entry=None, **opts) -> Generated:
                         modules[rel] = importlib.import_module(rel)
         except BaseException as e:  # noqa: BLE001
             error = e
-    return Generated(workdir, top, modules, error, buf.getvalue())
+    g = Generated(workdir, top, modules, error, buf.getvalue())
+    g.output_package = package  # what config.output.package was (JSON samples name their root class after its last segment)
+    return g
